@@ -94,6 +94,11 @@ static Case cases[] = {
              return printf("round trip lost the string: %s\n", t.First()), 1;
          return 0;
      }},
+    // ---- C04 / C01 integer remainder
+    {"math_remainder_by_zero", [] { return tp_is("{math: 5 % 0}", "[1]", "{math: 5 % 0}"); }},
+    {"math_remainder_by_fraction", [] { return tp_is("{math: 5 % 0.5}", "[1]", "{math: 5 % 0.5}"); }},
+    {"math_remainder_min_by_minus_one", [] { return tp_is("{math: (-9223372036854775807 - 1) % -1}", "[1]", "0"); }},
+    {"math_remainder_ok", [] { return tp_is("{math: 9 % 5}", "[1]", "4"); }},
     // ---- C01 template scanner / renderer
     {"tmpl_operator_lookahead", [] {
          char *p = exact("1|", 2);
